@@ -154,8 +154,18 @@ func (ssc *defaultStatefulSetControl) ListRevisions(set *apps.StatefulSet) ([]*k
 		return nil, err
 	}
 	res := []*kubeapps.ControllerRevision{}
+	seen := map[string]bool{}
 	for _, item := range append(revisions.Items, revisinsToUpgrade.Items...) {
 		local := item
+		// a revision carrying both the selector labels and the upgrade marker is in both lists
+		if seen[local.Name] {
+			continue
+		}
+		seen[local.Name] = true
+		// revisions controlled by another owner are not ours to number, sync, adopt or trim
+		if ref := metav1.GetControllerOfNoCopy(&local); ref != nil && ref.UID != set.GetUID() {
+			continue
+		}
 		res = append(res, &local)
 	}
 	return res, nil
